@@ -149,7 +149,9 @@ class Chip:
             self.areg[r] = bytearray(rng.randrange(256) for _ in range(5))
         self.features_unlocked = self.plus or rng.random() < 0.6
         if self.features_unlocked:
-            self.reg[0x1D] = rng.randrange(8)
+            # (a non-plus chip left activated with FEATURE == 0 is avoided: the driver's variant test cannot tell it from a
+            # plus chip and locks the feature registers again - an observation recorded in DESIGN 6.1, not a claim)
+            self.reg[0x1D] = rng.randrange(8) if self.plus else rng.randrange(1, 8)
             self.reg[0x1C] = rng.randrange(0x40) if self.reg[0x1D] & 4 else 0
         for _ in range(rng.randrange(4)):
             self.rxf.append((bytes(rng.randrange(256) for _ in range(rng.randrange(1, 33))), rng.randrange(6)))
